@@ -251,6 +251,12 @@ static int disasm_pop(
     snprintf(instruction, length, "%s", table_unsp[n].instr);
   }
     else
+  if (operand_a + opn > 7)
+  {
+    // The register list would go past pc: not an instruction.
+    snprintf(instruction, length, "???");
+  }
+    else
   if (opn == 1)
   {
     snprintf(instruction, length, "%s %s, [%s]",
